@@ -32,6 +32,7 @@ fn family(name: &str) -> GenCfg {
         with_null: true,
         drop_containers: false,
         setgen: None,
+        panics: false,
     };
     match name {
         "mixed" => base,
@@ -49,6 +50,7 @@ fn family(name: &str) -> GenCfg {
         "solo" => GenCfg { threads: (2, 4), containers: 2, hold: vec![0, 0, 8, 9], w: [5, 2, 3, 1, 6, 4, 3, 3, 1], ..base },
         "solochurn" => GenCfg { threads: (3, 5), ops: (1, 4), hold: vec![0, 0, 8], w: [5, 2, 3, 1, 6, 4, 2, 2, 1], ..base },
         "solonofast" => GenCfg { threads: (2, 4), strategy: 1, w: [5, 2, 3, 1, 6, 4, 3, 3, 1], ..base },
+        "panic" => GenCfg { threads: (2, 3), w: [4, 2, 3, 1, 6, 3, 2, 6, 1], hold: vec![0, 0, 3, 8], panics: true, with_null: false, ..base },
         "churn" => GenCfg { threads: (3, 5), ops: (1, 3), hold: vec![0, 0, 8], ..base },
         // every load on the fallback path (no fast slots), writers mostly rcu/cas: helpers abound
         "helprcu" => GenCfg { threads: (3, 4), strategy: 1, w: [9, 4, 4, 1, 3, 2, 3, 6, 1], ops: (3, 7), with_null: false, ..base },
